@@ -184,6 +184,9 @@ func (cat *Catalog) BuildKnowledgeBase() (*KnowledgeBase, error) {
 					return nil, err
 				}
 				dLen := binary.LittleEndian.Uint64(length)
+				if dLen > uint64(buffer.Len()) {
+					return nil, fmt.Errorf("invalid string constant length %d", dLen)
+				}
 				byteArr := make([]byte, dLen)
 				_, err = buffer.Read(byteArr)
 				if err != nil {
@@ -765,14 +768,14 @@ func (cat *Catalog) ReadCatalogFromReader(reader io.Reader) error {
 
 			return err
 		}
-		content := make([]string, incount)
+		content := newStringSlice(incount)
 		for subIndex := uint64(0); subIndex < incount; subIndex++ {
 			str, err := ReadStringFromReader(reader)
 			if err != nil {
 
 				return err
 			}
-			content[subIndex] = str
+			content = append(content, str)
 		}
 		cat.MemoryExpressionVariableMap[key] = content
 	}
@@ -796,14 +799,14 @@ func (cat *Catalog) ReadCatalogFromReader(reader io.Reader) error {
 
 			return err
 		}
-		content := make([]string, incount)
+		content := newStringSlice(incount)
 		for subIndex := uint64(0); subIndex < incount; subIndex++ {
 			str, err := ReadStringFromReader(reader)
 			if err != nil {
 
 				return err
 			}
-			content[subIndex] = str
+			content = append(content, str)
 		}
 		cat.MemoryExpressionAtomVariableMap[key] = content
 	}
@@ -1197,14 +1200,14 @@ func (meta *ArgumentListMeta) ReadMetaFrom(reader io.Reader) error {
 		return err
 	}
 
-	meta.ArgumentASTIDs = make([]string, integer)
+	meta.ArgumentASTIDs = newStringSlice(integer)
 	for index := uint64(0); index < integer; index++ {
 		s, err := ReadStringFromReader(reader)
 		if err != nil {
 
 			return err
 		}
-		meta.ArgumentASTIDs[index] = s
+		meta.ArgumentASTIDs = append(meta.ArgumentASTIDs, s)
 	}
 
 	return nil
@@ -1549,8 +1552,7 @@ func (meta *ConstantMeta) ReadMetaFrom(reader io.Reader) error {
 
 		return err
 	}
-	byteArr := make([]byte, length)
-	_, err = io.ReadFull(reader, byteArr)
+	byteArr, _, err := readBytesFromReader(reader, length)
 	if err != nil {
 
 		return err
@@ -2257,14 +2259,14 @@ func (meta *ThenExpressionListMeta) ReadMetaFrom(reader io.Reader) error {
 		return err
 	}
 
-	meta.ThenExpressionIDs = make([]string, count)
+	meta.ThenExpressionIDs = newStringSlice(count)
 	for index := uint64(0); index < count; index++ {
 		s, err := ReadStringFromReader(reader)
 		if err != nil {
 
 			return err
 		}
-		meta.ThenExpressionIDs[index] = s
+		meta.ThenExpressionIDs = append(meta.ThenExpressionIDs, s)
 	}
 
 	return nil
@@ -2563,8 +2565,7 @@ func ReadStringFromReader(reader io.Reader) (string, error) {
 		return "", err
 	}
 	strLen := binary.LittleEndian.Uint64(length)
-	strByte := make([]byte, int(strLen))
-	counter, err = io.ReadFull(reader, strByte)
+	strByte, counter, err := readBytesFromReader(reader, strLen)
 	TotalRead += uint64(counter)
 	if err != nil {
 
@@ -2573,6 +2574,40 @@ func ReadStringFromReader(reader io.Reader) (string, error) {
 	ReadCount++
 
 	return string(strByte), nil
+}
+
+// maxPreAllocation limits the memory that is reserved on the word of a length prefix alone.
+const maxPreAllocation = 1 << 16
+
+// readBytesFromReader reads exactly length bytes from reader. For big length the buffer grows as the data arrives,
+// so that a corrupted length prefix can not make us allocate more than what the stream actually contains.
+func readBytesFromReader(reader io.Reader, length uint64) ([]byte, int, error) {
+	if length <= maxPreAllocation {
+		data := make([]byte, length)
+		counter, err := io.ReadFull(reader, data)
+
+		return data, counter, err
+	}
+	if length > math.MaxInt64 {
+
+		return nil, 0, fmt.Errorf("invalid length %d", length)
+	}
+	var buff bytes.Buffer
+	counter, err := io.CopyN(&buff, reader, int64(length))
+	if err == io.EOF {
+		err = io.ErrUnexpectedEOF
+	}
+
+	return buff.Bytes(), int(counter), err
+}
+
+// newStringSlice creates an empty string slice for count elements, without trusting count for the allocation.
+func newStringSlice(count uint64) []string {
+	if count > maxPreAllocation/16 {
+		count = maxPreAllocation / 16
+	}
+
+	return make([]string, 0, count)
 }
 
 // WriteIntToWriter write a 64 bit integer into writer.
